@@ -324,8 +324,20 @@ def write_replay(prop, body):
     path = os.path.join(ROOT, "replays", "%s-%s.json" % (prop, h))
     body = dict(body)
     body["replay_cmd"] = "./check %s --replay %s" % (prop, os.path.relpath(path, ROOT))
+    # the harness bins locate the replayed case by the first occurrence of "request": in the file:
+    # write that field first and keep the literal out of the free-text details
+    ordered = {}
+    for k in ("request", "what", "kind", "property"):
+        if k in body:
+            ordered[k] = body[k]
+    for k in sorted(body):
+        if k not in ordered:
+            ordered[k] = body[k]
+    txt = json.dumps(ordered, indent=1)
+    head, sep, tail = txt.partition('"request":')
+    txt = head + sep + tail.replace('\\"request\\":', "'request':")
     with open(path, "w") as f:
-        json.dump(body, f, indent=1, sort_keys=True)
+        f.write(txt)
     return os.path.relpath(path, ROOT)
 
 
